@@ -77,6 +77,7 @@ def run_cases(kvh, cases, env=None, timeout=900, par=None):
         lines = [prep(c) for c in chunk]
         rc, out, err = C.run_lines(kvh, lines, env=env, timeout=timeout)
         for i, c in enumerate(chunk):
+            c.stderr = err[-6000:]
             if i < len(out) and out[i] != "":
                 c.status = out[i]
             else:
